@@ -621,3 +621,65 @@ func (w *World) checkFirstMatchLoop(r *Report, rule string, fn *ssa.Function, te
 		r.ok(rule, construct, w.pos(fn.Pos()), "first element that passes the test, else "+none)
 	}
 }
+
+// ruleC17R3: nothing but the visitor prunes the traversal. In the traversal loop (walkMain, the functions of package ast
+// it calls, and the walkInternal switch) every branch decides on nil tests, on the emptiness of the work stack or on the
+// counter of a push loop; a comparison with a size other than 0 or 1 — a depth limit, a node budget — makes Walk drop
+// subtrees of a large but finite tree without any callback having asked for it.
+func ruleC17R3(w *World, r *Report) {
+	const rule = "C17/R3"
+	r.rule(rule, "the traversal loop of ast.Walk (walkMain and the package functions it calls) has no branch that compares a length or a counter with a constant other than 0 or 1: no depth or size limit cuts the traversal short", 1)
+	root := w.fn(w.Ast, "walkMain")
+	if root == nil {
+		r.errorf("ast.walkMain not found")
+		return
+	}
+	seen := map[*ssa.Function]bool{}
+	work := []*ssa.Function{root}
+	n := 0
+	for len(work) > 0 {
+		fn := work[0]
+		work = work[1:]
+		if seen[fn] || fn.Blocks == nil {
+			continue
+		}
+		seen[fn] = true
+		bad := ""
+		for _, b := range fn.Blocks {
+			for _, in := range b.Instrs {
+				if c, ok := in.(*ssa.Call); ok {
+					if cal := c.Call.StaticCallee(); cal != nil && fnPkgPath(cal) == modRoot+"/ast" {
+						work = append(work, cal)
+					}
+				}
+			}
+			iff, ok := b.Instrs[len(b.Instrs)-1].(*ssa.If)
+			if !ok {
+				continue
+			}
+			bo, ok := iff.Cond.(*ssa.BinOp)
+			if !ok {
+				continue
+			}
+			for _, side := range []ssa.Value{bo.X, bo.Y} {
+				if k, isC := constInt(side); isC && isIntType(side.Type()) && (k > 1 || k < -1) {
+					bad = fmt.Sprintf("the branch at %s compares with the constant %d", w.pos(condPosOf(iff, b)), k)
+				}
+			}
+		}
+		n++
+		construct := "branches of " + funcName(fn)
+		if bad != "" {
+			r.bad(rule, construct, w.pos(fn.Pos()), bad+": a limit on depth, stack or node count ends the traversal of a finite tree early, although no callback returned nil/false")
+		} else {
+			r.ok(rule, construct, w.pos(fn.Pos()), "only nil tests, emptiness tests and loop counters")
+		}
+	}
+}
+
+func condPosOf(iff *ssa.If, b *ssa.BasicBlock) token.Pos {
+	if v, ok := iff.Cond.(ssa.Instruction); ok && v.Pos().IsValid() {
+		return v.Pos()
+	}
+	return lastPos(b)
+}
